@@ -14,7 +14,7 @@
    The search algorithm itself (shangrla/raire/raire.py compute_raire_assertions: frontier, dive, lower bound,
    de-duplication, subsumption) is NOT modelled or proved: every output of the implementation is validated on each
    run by these verified checkers (harness/c04.py -> Run_Raire.agree_c04; DESIGN section 4 table, row C04/C15). *)
-From SV Require Import RaireCheck RaireCheck_proofs.
+From SV Require Import RaireCheck RaireCheck_proofs RaireAlgo RaireAlgo_proofs.
 Open Scope nat_scope.
 
 (* the tree-based decision procedure is exact: true iff EVERY complete order ending in another candidate is
@@ -52,6 +52,35 @@ Theorem C04_in_particular : forall cands p winner,
 Proof. exact in_particular. Qed.
 Print Assumptions C04_in_particular.
 
+(* ---- the model of the search itself (RaireAlgo.raire, compared output-for-output with compute_raire_assertions on
+   every run by Run_Raire.agree_algo).  Full statement aimed at (C04_algo):
+     raire fuel dfun cands p tot winner hint = Some out -> out <> [] -> check_output cands p winner (map fst out) = true.
+   Proved: (1) its first half unconditionally — every assertion of the model's output is well formed and true of
+   the profile with exactly the tallies it reports; (2) the full statement CONDITIONAL on the one invariant of the
+   search loop that is not proved, `frontier_covers` (every alternative order has a suffix among the frontier tails
+   when the loop ends; see the comment in RaireAlgo_proofs.v for what its preservation needs).  Everything after
+   the loop — find_best_audit's assertion excludes its tail, same_as de-duplication, sorting, both subsumes rules —
+   is proved sound. *)
+Theorem C04_algo_output_true_partial :
+  forall fuel dfun cands p tot winner hint out,
+    raire fuel dfun cands p tot winner hint = Some out ->
+    forallb (rep_ok cands p) (map fst out) = true.
+Proof. exact raire_model_output_true_partial. Qed.
+Print Assumptions C04_algo_output_true_partial.
+
+Theorem C04_algo_checked_partial :
+  forall fuel dfun cands p tot winner hint out,
+    NoDup cands ->
+    (forall h fr,
+        search dfun cands p tot hint (neb_table dfun cands p tot) fuel
+               (fst (initial dfun cands p tot (neb_table dfun cands p tot) winner))
+               (snd (initial dfun cands p tot (neb_table dfun cands p tot) winner)) (-10 # 1)%Q = Finished h fr ->
+        frontier_covers cands winner h fr) ->
+    raire fuel dfun cands p tot winner hint = Some out -> out <> [] ->
+    check_output cands p winner (map fst out) = true.
+Proof. exact raire_model_output_checked_partial. Qed.
+Print Assumptions C04_algo_checked_partial.
+
 (* ---- non-vacuity: concrete inputs satisfying the hypotheses *)
 Definition ex_cands : list cand := [0; 1; 2].
 Definition ex_profile : profile :=
@@ -84,3 +113,10 @@ Proof.
     (destruct dn as [|x1 [|x2 [|x3 dn]]]; simpl in H; inversion H; subst; simpl in Hd;
       repeat (destruct Hd as [Hd|Hd]; [subst|]); try contradiction; vm_compute; repeat constructor).
 Qed.
+(* the model of the search returns a non-empty list on the example profile, and the verified checker accepts it *)
+Example ex_algo :
+  match raire (default_fuel ex_cands) cp_q ex_cands ex_profile 10 0 [] with
+  | Some out => negb (Nat.eqb (length out) 0) && check_output ex_cands ex_profile 0 (map fst out)
+  | None => false
+  end = true.
+Proof. vm_compute. reflexivity. Qed.
